@@ -208,6 +208,7 @@ class Ctx:
         if cov_audit:       # vacuity audit (lib/coverage_audit.sh): which actions does the bounded model never take?
             args += ["-coverage", "1"]
         args.append(module + ".tla")
+        slot = _jvm_slot()      # machine-wide bound on concurrent JVMs (several checks running at once must not exhaust memory)
         t = time.time()
         try:
             p = subprocess.run(args, cwd=d, capture_output=True, text=True, timeout=timeout, preexec_fn=_die_with_parent)
@@ -217,6 +218,8 @@ class Ctx:
                 rc, out = 0, (ex.stdout or b"").decode() if isinstance(ex.stdout, bytes) else (ex.stdout or "")
             else:
                 raise Infra("TLC %s timed out after %ds" % (module, timeout))
+        finally:
+            slot.close()
         r = TlcResult(rc, out, time.time() - t)
         r.dir = d
         open(os.path.join(d, "tlc.out"), "w").write(out)
@@ -389,6 +392,25 @@ def read_emitted(path):
                 v = json.loads(v)
             vecs.append(v)
     return vecs
+
+
+def _jvm_slot():
+    """Take one of VERIF_JVM_SLOTS (default 24) lock files under out/.slots; blocks until one is free.
+    The lock is released when the returned file is closed (or the process dies)."""
+    import fcntl
+    d = os.path.join(VERIF, "out", ".slots")
+    os.makedirs(d, exist_ok=True)
+    k = max(1, int(os.environ.get("VERIF_JVM_SLOTS", "24") or "24"))
+    start = (os.getpid() * 7 + int(time.time() * 1000)) % k
+    while True:
+        for i in range(k):
+            f = open(os.path.join(d, str((start + i) % k)), "w")
+            try:
+                fcntl.flock(f, fcntl.LOCK_EX | fcntl.LOCK_NB)
+                return f
+            except OSError:
+                f.close()
+        time.sleep(0.3)
 
 
 def load_known():
